@@ -353,23 +353,40 @@ static void list_units(const std::string& tier0)
             for (auto& sh : shapes) { snprintf(b,sizeof b,"profile=c02,kind=%s,shape=%s,depth=%d,cat=%d,cfgs=%s", k.c_str(), sh.c_str(), asan?2:3, th?8:6, th?"pols36":"pols6"); emit(b, th?8:2); }
         }
     } else if (P=="c06") {
+      if (!th) {
         for (const char* pol : {"eao","eap","ean","sgp","fho"}) {
             if (asan && strcmp(pol,"eao") && strcmp(pol,"eap")) continue;
             for (const char* k : {"S:MTb:F","S:MTi:Q","S:EVpi:F","R:MTb:I","R:EVtr:F"}) {
                 const char* sh = k[0]=='R' ? "S3" : "S7";
-                // quick: depth 3 for the optimistic/pessimistic defaults on two kinds, depth 2 elsewhere; thorough: depth 4 / 3
+                // quick: depth 3 for the optimistic/pessimistic defaults on two kinds, depth 2 elsewhere
                 bool deep = (!strcmp(pol,"eao") || !strcmp(pol,"eap")) && (!strcmp(k,"S:MTb:F") || !strcmp(k,"R:MTb:I"));
-                int depth = th ? (asan ? 3 : (deep ? 4 : 3)) : (asan ? 2 : (deep ? 3 : 2));
+                int depth = asan ? 2 : (deep ? 3 : 2);
                 if (asan && !deep) continue;
                 snprintf(b,sizeof b,"profile=c06,kind=%s,shape=%s,depth=%d,cat=8,pol=%s", k, sh, depth, pol); emit(b, depth>=3 ? 16 : 2);
             }
             for (const char* rr : {"I","F"}) for (const char* k : {"S:MTb:F","S:MTb:Q"}) {
                 bool deep = (!strcmp(pol,"eao") || !strcmp(pol,"eap")) && !strcmp(rr,"I") && !strcmp(k,"S:MTb:F");
-                int depth = th ? (asan ? 3 : (deep ? 4 : 3)) : (asan ? 2 : (deep ? 3 : 2));
+                int depth = asan ? 2 : (deep ? 3 : 2);
                 if (asan && !deep) continue;
                 snprintf(b,sizeof b,"profile=c06,kind=%s,shape=S4,depth=%d,cat=6,pol=%s,rel=%s", k, depth, pol, rr); emit(b, depth>=3 ? 16 : 2);
             }
         }
+      } else {
+        // thorough (sized from a measured run: the first layout needed ~80 CPU-hours): depth 3 everywhere it is offered, depth 4 on one family
+        if (!asan) {
+            for (const char* pol : {"eao","eap","ean","sgp","fho"}) for (const char* k : {"S:MTb:F","R:MTb:I"}) {
+                snprintf(b,sizeof b,"profile=c06,kind=%s,shape=%s,depth=3,cat=8,pol=%s", k, k[0]=='R'?"S3":"S7", pol); emit(b, 16); }
+            for (const char* pol : {"eao","eap"}) for (const char* k : {"S:MTi:Q","S:EVpi:F","R:EVtr:F"}) {
+                snprintf(b,sizeof b,"profile=c06,kind=%s,shape=%s,depth=3,cat=8,pol=%s", k, k[0]=='R'?"S3":"S7", pol); emit(b, 16); }
+            for (const char* pol : {"eao","eap"}) for (const char* rr : {"I","F"}) { snprintf(b,sizeof b,"profile=c06,kind=S:MTb:F,shape=S4,depth=3,cat=6,pol=%s,rel=%s", pol, rr); emit(b, 16); }
+            snprintf(b,sizeof b,"profile=c06,kind=S:MTb:Q,shape=S4,depth=3,cat=6,pol=eao,rel=I"); emit(b, 16);
+            snprintf(b,sizeof b,"profile=c06,kind=R:MTb:I,shape=S3,depth=4,cat=4,pol=eao"); emit(b, 48);
+        } else {
+            for (const char* pol : {"eao","eap"}) for (const char* k : {"S:MTb:F","R:MTb:I"}) {
+                snprintf(b,sizeof b,"profile=c06,kind=%s,shape=%s,depth=3,cat=4,pol=%s", k, k[0]=='R'?"S3":"S7", pol); emit(b, 16); }
+            snprintf(b,sizeof b,"profile=c06,kind=S:MTb:F,shape=S4,depth=3,cat=4,pol=eao,rel=I"); emit(b, 16);
+        }
+      }
     } else if (P=="c07") {
         // quick:    depth 2 x 12 configurations (4 styles x 3 stale options, maximum size 1024) + depth 3 on the default configuration
         // thorough: depth 2 x 72 configurations (x 3 maximum sizes x entry compression) + depth 3 x the 12 configurations
